@@ -21,6 +21,7 @@
 #include <utility>
 #include <algorithm>
 #include <unistd.h>
+#include <csignal>
 #include <sys/personality.h>
 
 namespace sim {
@@ -274,8 +275,18 @@ inline void emit_violation(const char* tag, std::uint64_t runidx, std::uint64_t 
 //   E {json}                            harness error
 //   S {json}                            sample plan
 //   Z {json}                            final summary
+// Per-run watchdog: a run that does not finish within VERIF_RUN_TIMEOUT seconds (default 120) is a harness-visible
+// hang.  It is reported as an E record (exit 2 material) with the run index instead of stalling the batch for hours.
+inline volatile unsigned long long g_watch_run = 0;
+inline void on_alarm(int) {
+    char b[128]; int n = std::snprintf(b, sizeof b, "E {\"error\":\"run %llu did not finish within the per-run time limit (hang)\"}\n", (unsigned long long)g_watch_run);
+    (void)!write(1, b, (size_t)n); _exit(3);
+}
+
 inline int worker_main(Engine& eng, int argc, char** argv) {
     ensure_no_aslr(argv);
+    unsigned run_timeout = std::getenv("VERIF_RUN_TIMEOUT") ? (unsigned)std::atoi(std::getenv("VERIF_RUN_TIMEOUT")) : 120u;
+    std::signal(SIGALRM, on_alarm);
     std::string mode, prop = "", tier = "quick", planfile;
     std::uint64_t batch = 1, start = 0, stride = 1, count = 0, samples = 0, until = ~0ull;
     bool hashes = false, sweep_only = false, no_sweep = false;
@@ -305,7 +316,9 @@ inline int worker_main(Engine& eng, int argc, char** argv) {
     if (mode == "--exec") {
         Plan plan; if (!Plan::read(planfile.c_str(), plan)) { std::printf("E {\"error\":\"cannot read plan\"}\n"); return 2; }
         RunResult rr; rr.log.keep = true; Stats st;
+        alarm(run_timeout);
         eng.execute(plan, rr, st);
+        alarm(0);
         for (auto& l : rr.log.lines) std::printf("L %s\n", l.c_str());
         for (auto& o : rr.observations) std::printf("O %s\n", o.c_str());
         if (!rr.harness_error.empty()) { std::printf("E {\"error\":\"%s\"}\n", json_escape(rr.harness_error).c_str()); std::fflush(stdout); return 2; }
@@ -329,7 +342,9 @@ inline int worker_main(Engine& eng, int argc, char** argv) {
         Plan plan; bool sweep = i < nsweep; std::uint64_t seed = 0;
         if (sweep) { eng.sweep_plan(i, plan); plan.head.setu("sweep", i); }
         else { seed = run_seed(batch, (std::string(eng.name()) + ":" + prop).c_str(), i - nsweep); Rng rng(seed); eng.generate(rng, plan); plan.head.setu("seed", seed); }
+        g_watch_run = i; std::fflush(stdout); alarm(run_timeout);
         RunResult rr; eng.execute(plan, rr, st);
+        alarm(0);
         st.runs++; st.steps += (std::uint64_t)rr.steps_done; if (sweep) st.sweep_runs++;
         if (hashes) std::printf("H %llu %016llx\n", (unsigned long long)i, (unsigned long long)rr.log.h);
         if (!rr.harness_error.empty()) {
